@@ -453,6 +453,20 @@ def make_termination(name):
         return T.CandidateRelativeTolerance(1e-4, 1e-4)
     if name == 'default':
         return None
+    if name == 'spread':
+        return T.PopulationSpread(1e-3)
+    if name == 'solimp':
+        return T.SolutionImprovement(1e-4)
+    if name == 'vtrcog':
+        return T.VTRChangeOverGeneration(1e-3, 1e-6, 3, 0.0)
+    if name == 'or':
+        return T.Or(T.ChangeOverGeneration(1e-8, 3), T.VTR(1e-3, 0.0))
+    if name == 'and':
+        return T.And(T.NormalizedChangeOverGeneration(1e-3, 2), T.PopulationSpread(0.5))
+    if name == 'when':
+        return T.When(T.ChangeOverGeneration(1e-6, 2))
+    if name == 'gnt':
+        return T.GradientNormTolerance(1e-3)
     raise ValueError(name)
 
 
